@@ -43,19 +43,19 @@ SOURCE_TYPE = {"cachet": "cache"}
 WEAK_MAY_CHANGE = {"cachet": "vita::cache::table_"}
 # objects per type, max stream length for exhaustive prefixes, token mutations per object: (quick, thorough)
 BUDGET = {
-    "hash": ((80, 600, 120), (570, 6000, 600)),
-    "fit": ((160, 600, 120), (1150, 6000, 600)),
-    "iga": ((120, 600, 120), (860, 6000, 600)),
-    "ide": ((120, 600, 120), (860, 6000, 600)),
-    "mati": ((80, 600, 120), (570, 6000, 600)),
-    "matu": ((80, 600, 120), (570, 6000, 600)),
-    "dist": ((80, 600, 160), (570, 6000, 600)),
-    "imep": ((120, 600, 160), (860, 6000, 600)),
-    "team": ((40, 600, 160), (210, 6000, 600)),
-    "pop": ((40, 600, 200), (210, 6000, 700)),
-    "summ": ((80, 600, 160), (430, 6000, 600)),
-    "lam": ((60, 600, 200), (340, 6000, 700)),
-    "cachet": ((60, 400, 120), (340, 4000, 600)),
+    "hash": ((80, 600, 120), (570, 6000, 400)),
+    "fit": ((160, 600, 120), (1150, 6000, 400)),
+    "iga": ((120, 600, 120), (860, 6000, 400)),
+    "ide": ((120, 600, 120), (860, 6000, 400)),
+    "mati": ((80, 600, 120), (570, 6000, 400)),
+    "matu": ((80, 600, 120), (570, 6000, 400)),
+    "dist": ((80, 600, 160), (570, 6000, 400)),
+    "imep": ((120, 600, 160), (860, 6000, 400)),
+    "team": ((40, 600, 160), (210, 6000, 400)),
+    "pop": ((40, 600, 200), (210, 6000, 470)),
+    "summ": ((80, 600, 160), (430, 6000, 400)),
+    "lam": ((60, 600, 200), (340, 6000, 470)),
+    "cachet": ((60, 400, 120), (340, 4000, 400)),
 }
 FAILISH = ("fail", "exc:bad_alloc", "exc:length_error", "null", "exc:data_format")
 
@@ -579,6 +579,7 @@ def run(chk, replay=None):
     tabs = {}
     shapes_present = set()  # (type, shape): the field types that occur in the valid streams of the run
     field_cover = {}       # (type, shape of the valid token, damage family) -> damaged streams generated
+    acc_n = {}
     accepted = []          # (request, line, code answer): the code loaded a stream the model of the format rejects
     dis = {}               # (type, class) -> number of model/code disagreements
 
@@ -714,7 +715,9 @@ def run(chk, replay=None):
                     # the real load returned true / a model: decided below (`explained`)
                     cls = "accepted-a-stream-the-format-rejects"
                     chk.count(f"accepted:{typ}:{kind.split(':')[0]}")
-                    if sum(1 for r in accepted if r[0][0] == typ) < 40:
+                    akey = (typ, kind.split(":")[0])        # a sample per type and kind of damage goes to `explained`
+                    acc_n[akey] = acc_n.get(akey, 0) + 1
+                    if acc_n[akey] <= 25:
                         accepted.append((reqs[g], lines[g], ca))
                 elif m_ok and not c_ok:
                     cls = "rejected-a-stream-the-model-accepts"
